@@ -7,10 +7,17 @@ only = set(sys.argv[2:])
 blocks = re.split(r"^#### ", log, flags=re.M)[1:]
 for b in blocks:
     head, *rest = b.split("\n")
+    retest = None
     m = re.match(r"(C\d\d)r2 (m\d) -> (.*)", head)
-    prop, mk, checks = m.group(1), m.group(2), m.group(3).split()
-    new = f"m{int(mk[1:]) + 3}"
-    mid = f"{prop}-{new}"
+    if not m:
+        m2 = re.match(r"RETEST (C\d\d-m\d+) -> (.*)", head)
+        retest = m2.group(1)
+        prop, mk, checks = retest[:3], None, m2.group(2).split()
+        mid = retest
+    else:
+        prop, mk, checks = m.group(1), m.group(2), m.group(3).split()
+        new = f"m{int(mk[1:]) + 3}"
+        mid = f"{prop}-{new}"
     if only and mid not in only:
         continue
     wt = f"/tmp/mut/{prop}r2"
@@ -51,6 +58,16 @@ for b in blocks:
         else:
             parts.append(f"NOT flagged by {c}")
     result = " | ".join(parts)
+    if retest:
+        mp = f"/verif/seeded/{retest}/meta.json"
+        meta = json.load(open(mp))
+        first = meta["check_result"].split(" || AFTER STRENGTHENING")[0]
+        if not first.startswith("INITIALLY"):
+            first = "INITIALLY " + first
+        meta["check_result"] = first + " || AFTER STRENGTHENING: " + result
+        json.dump(meta, open(mp, "w"), indent=1)
+        print(retest, "|", meta["check_result"][:300])
+        continue
     notes = open(f"{wt}/out/{mk}/notes.md").read()
     mm = re.search(r"^##+ What it needs[^\n]*\n(.*?)(?=^##? )", notes, flags=re.M | re.S)
     needs = re.sub(r"\s+", " ", mm.group(1)).strip()[:700] if mm else notes.split("\n")[0]
